@@ -15,7 +15,7 @@ pub fn def() -> PropDef {
     PropDef {
         info: PropInfo {
             id: "C08",
-            rule: "programs with 1-4 helper call sites; helper ids from {0,1,6,0x7fffffff,0x80000000,0xffffffff,random u32}, a random subset registered onto three distinct instrumented 5-argument helpers; each site loads five boundary-heavy, pairwise distinct arguments into r1-r5, keeps sentinels in r6-r9 and a spilled copy of r10, runs under a stack-usage calculator returning a generated frame size from {0,8,16,24,40,56} for every function, and is placed at top level or inside local functions at depth 1-8, the deepest legal nesting (interpreter and JIT; Cranelift gets the top-level-only programs); call instructions carry junk dst/off fields; unregistered ids are placed on executed or on never-executed paths. Every helper is entered through an assembly stub that records rsp. Oracle per engine: log of (function identity, a1..a5) equals the reference model's call sequence, (rsp+8)%16==0 at every call, result equals the model, sentinels and r10 fold to the expected value; an unregistered id gives an interpreter Err only if reached (and Ok with the model value if not), gives a compile-time Err from both compilers, and nothing is invoked beyond the model's log. Non-trivial = at least one executed helper call with pairwise distinct arguments; distinct by hash.",
+            rule: "programs with 1-4 helper call sites, on each of the four VM kinds; helpers are registered in an order that is a function of the case (listed, reversed, rotated, shuffled); helper ids from {0,1,6,0x7fffffff,0x80000000,0xffffffff,random u32}, a random subset registered onto three distinct instrumented 5-argument helpers; each site loads five boundary-heavy, pairwise distinct arguments into r1-r5, keeps sentinels in r6-r9 and a spilled copy of r10, runs under a stack-usage calculator returning a generated frame size from {0,8,16,24,40,56} for every function, and is placed at top level or inside local functions at depth 1-8, the deepest legal nesting (interpreter and JIT; Cranelift gets the top-level-only programs); call instructions carry junk dst/off fields; unregistered ids are placed on executed or on never-executed paths. Every helper is entered through an assembly stub that records rsp. Oracle per engine: log of (function identity, a1..a5) equals the reference model's call sequence, (rsp+8)%16==0 at every call, result equals the model, sentinels and r10 fold to the expected value; an unregistered id gives an interpreter Err only if reached (and Ok with the model value if not), gives a compile-time Err from both compilers, and nothing is invoked beyond the model's log. Non-trivial = at least one executed helper call with pairwise distinct arguments; distinct by hash.",
             assumptions: &["the Rust-ABI helper type coincides with the C ABI for five u64 arguments on x86-64 (rbpf's JITs rely on the same fact)", "reference model for register effects of call/exit"],
         },
         run,
